@@ -52,6 +52,35 @@ def payload_for(units):
         u = info.get(f['unit'])
         fn = f['oid'].split('::')[1].split('/')[0].split('{')[0]
         key = [k for k in (u.registry if u else {}) if k.endswith('::' + fn)]
-        return {'key': key[0] if key else fn, 'cfg': getattr(u, 'cfg', None), 'start': getattr(u, 'start', None),
+        return {'key': key[0] if key else fn, 'cfg': getattr(u, 'cfg', None), 'start': getattr(u, 'start', None), 'proposals': getattr(u, 'proposals', None),
                 'inputs': f['model'], 'obligation': f['oid']}
     return payload
+
+from contracts import kmedoids as CK
+
+KMF = 'enspara/cluster/kmedoids.py'
+MUT_PAM = [('dropped-copy', KMF, "new_medoids = medoid_coords.copy()", "new_medoids = medoid_coords"),
+           ('accept-reversed', KMF, "        if new_cost < old_cost:", "        if new_cost > old_cost:"),
+           ('labels-without-distances', KMF, "            distances, assignments = new_dist, new_assig\n", "            assignments = new_assig\n"),
+           ('wrong-branch', KMF, "dst_up_assig_other = (distances <= new_ctr_dist) & (assignments != cid)", "dst_up_assig_other = (distances <= new_ctr_dist)"),
+           ('index-before-decision', KMF, "        new_medoids[cid] = proposed_center\n", "        new_medoids[cid] = proposed_center\n        medoid_inds[cid] = proposed_center_ind\n")]
+
+
+def kmedoids_units(exclude=()):
+    out = []
+    for mode in ('random', 'given'):
+        reg = CK.registry(mode, exclude)
+        u = Unit('pam-update[%s]' % mode, reg, keys=[CK.KM + '_kmedoids_pam_update'] + ([CK.KM + '_msq', CK.KM + '_propose_new_center_amongst'] if mode == 'random' else []),
+                 axioms=CK.axioms, mutants=MUT_PAM if mode == 'random' else MUT_PAM[:1])
+        u.proposals = mode
+        out.append(u)
+        u2 = Unit('kmedoids-iterations[%s]' % mode, reg, keys=[CK.KM + '_kmedoids_iterations'], axioms=CK.axioms)
+        u2.proposals = mode
+        out.append(u2)
+    for cfg in ('both', 'n'):
+        reg = CK.registry_hybrid(cfg, exclude)
+        u = Unit('hybrid[%s]' % cfg, reg, keys=[CK.HY + 'hybrid'], axioms=CK.axioms,
+                 mutants=[('hybrid-drops-kcenters-state', 'enspara/cluster/hybrid.py', "            X, distance_method, n_iters, cluster_center_inds, assignments,\n            distances, args=args", "            X, distance_method, n_iters, cluster_center_inds, assignments,\n            distances * 2, args=args")] if cfg == 'both' else [])
+        u.cfg = cfg
+        out.append(u)
+    return out
